@@ -17,7 +17,7 @@ func init() {
 		Decided: "(a) the lookup and the insert of the replay memory are one exclusive critical section and the result returned is the lookup's; (b) registration dominates decryption and a positive result leads to an error return; (c) the recorded time is server time; " +
 			"(d) every eviction from the replay memory is guarded by 'first seen earlier than now minus 2x tolerance' with the repository's own tolerance constant (an entry outlives the period in which its packet is acceptable), and the memory is never reset; " +
 			"(e) the cache key is invariant under the one transformation of the carrier bytes that leaves shared secret, nonce and sealed block unchanged (bit 255 of the X25519 u-coordinate) or is derived from authenticated data; (f) both transports register the same 32 bytes that feed the key agreement.",
-		NotDecided: "histories as such (the statement over all interleavings of presentations and clean-ups is reduced to the constants and the critical section); memory exhaustion of the map; the 19 non-canonical encodings u >= p (an honest random key hits them with probability 2^-250).",
+		NotDecided:  "histories as such (the statement over all interleavings of presentations and clean-ups is reduced to the constants and the critical section); memory exhaustion of the map; the 19 non-canonical encodings u >= p (an honest random key hits them with probability 2^-250).",
 		Assumptions: []string{"X25519 ignores bit 255 of the peer's u-coordinate (RFC 7748 section 5)", "AES-GCM authenticates the 64-byte block; nonce = bytes 0..11 of the carrier"},
 	})
 }
